@@ -16,7 +16,7 @@ def run(tier):
     shards = vlib.shard(names, vlib.NCPU)
     # expectation-free corpus: generated hostile packages and scenario packages (identity round = baseline)
     from props import c09 as _c09
-    gpats, man = corpus.generate(ws, 48 if tier == "quick" else 480, vlib.seed(), vw)
+    gpats, man = corpus.generate(ws, 64 if tier == "quick" else 480, vlib.seed(), vw)   # >= the number of non-API snippets (rotation)
     for k in range(2 if tier == "quick" else 8):
         sub = os.path.join(ws, "sc%d" % k)
         os.makedirs(sub)
